@@ -129,15 +129,76 @@ def load_known():
     return out
 
 
+def hull_vertices_float(p):
+    """vertices of triangle / rectangle / box as the implementation's converters compute them (floats)"""
+    k = p["kind"]
+    if k == "triangle":
+        return [list(v) for v in p["pts"]]
+    if k == "rectangle":
+        c, (a0, a1), (l0, l1) = p["c"], p["axes"], p["lengths"]
+        return [[c[i] + s0 * l0 * a0[i] + s1 * l1 * a1[i] for i in range(3)]
+                for s0 in (-0.5, 0.5) for s1 in (-0.5, 0.5)]
+    if k == "box":
+        P, sz = p["pose"], p["size"]
+        return [[P[i][3] + sum(P[i][j] * (s[j] * sz[j]) for j in range(3)) for i in range(3)]
+                for s in ((a, b, c) for a in (-0.5, 0.5) for b in (-0.5, 0.5) for c in (-0.5, 0.5))]
+    return []
+
+
+def shallow_crossing(case):
+    """input class of FD1/FD2: the hull's extreme vertices are strictly on opposite sides of the plane and the
+    edge between them is within the hard-wired 1e-6 band of _line_segment_to_plane's parallel test
+    (a slightly wider band, 1.01e-6, so that float differences cannot hide a member of the class)"""
+    pp, pn = case["A"]["p"], case["A"]["n"]
+    vs = hull_vertices_float(case["B"])
+    if not vs:
+        return False
+    ts = [sum((v[i] - pp[i]) * pn[i] for i in range(3)) for v in vs]
+    lo, hi = min(ts), max(ts)
+    if not lo * hi < 0:
+        return False
+    a, b = vs[ts.index(lo)], vs[ts.index(hi)]
+    dd = [b[i] - a[i] for i in range(3)]
+    n2 = sum(x * x for x in dd)
+    l = sum(dd[i] * pn[i] for i in range(3))
+    return n2 > 0 and l * l < 1.01e-6 * n2
+
+
+def circle_sqr_len(case, p=None):
+    """point_to_circle's own band quantity (floats, same order of operations)"""
+    p = case["A"]["p"] if p is None else p
+    c, n = case["B"]["c"], case["B"]["n"]
+    diff = [p[i] - c[i] for i in range(3)]
+    h = sum(diff[i] * n[i] for i in range(3))
+    dip = [diff[i] - h * n[i] for i in range(3)]
+    return sum(x * x for x in dip)
+
+
 def known_id(case, r):
     """id of the C10 known finding whose input-class predicate holds, else None"""
-    if case["fn"] == "disk_to_disk":
+    fn = case["fn"]
+    if fn == "disk_to_disk":
         from .c11 import disk_class
         cls = disk_class(case)
         if cls == "parallel-offset":
             return "F20"
         if cls == "centres-on-line":
             return "F21"
+        if cls == "coplanar":
+            cr = pl.cross(case["A"]["n"], case["B"]["n"])
+            if sum(x * x for x in cr) > 0.0:
+                return "FD4"
+    if fn in ("plane_to_triangle", "plane_to_rectangle", "plane_to_box") and shallow_crossing(case):
+        return "FD2"
+    if fn == "point_to_circle" and 0.0 < circle_sqr_len(case) < 1.01e-6:
+        return "FD3"
+    if fn == "line_segment_to_circle" and r.get("on_line") is False and any(
+            0.0 < circle_sqr_len(case, case["A"][k]) < 1.01e-6 for k in ("s", "e")):
+        return "FD3"      # end point clamp delegates to point_to_circle with an end point inside its band
+    if fn in ("line_to_circle", "line_segment_to_circle"):
+        m0 = r.get("m0sq") if isinstance(r, dict) else None
+        if m0 is not None and 1e-20 <= m0 < 1e-12:
+            return "FD5"
     return None
 
 
